@@ -1,19 +1,11 @@
 ----------------------------- MODULE MC_Render -----------------------------
-(* Exhaustive configurations of Render.tla: the input sets explored by the state machine. *)
-EXTENDS Render, RenderCases
+(* Exhaustive configurations of Render.tla.  The inputs explored are the cases TLC exported   *)
+(* (MC_RenderGen writes mc_<mode>.ndjson; the check copies the one to explore to              *)
+(* mc_inputs.ndjson), so the state machine explores exactly what the harness replays.         *)
+EXTENDS Render, Json
+
+SeqFromFile == ndJsonDeserialize("mc_inputs.ndjson")
 
 HostsFull == [canary : {"absent", "str", "int"}, env : {"e0", "e1"}]
 HostsOne  == {[canary |-> "absent", env |-> "e0"]}
-
-\* C05: charts on two levels; the number of template paths bounds the permutations per map walk
-C05Quick    == {c \in OrderCases : NPaths(c) <= 5} \cup ProgCases(2) \cup ErrCases \cup SchemaCases
-C05Thorough == {c \in OrderCases : NPaths(c) <= 7} \cup ProgCases(3) \cup ErrCases \cup SchemaCases
-
-\* C08: all document sequences over kind x class (one flavour per class) in up to three files,
-\* and every flavour incl. blank / comment-only documents for up to two documents
-C08Quick    == PartCases(LitTypes(AbsCls), 1, 3) \cup PartCases(LitTypes(AllCls), 1, 2)
-C08Thorough == PartCases(LitTypes(AbsCls), 1, 4) \cup PartSubCases(LitTypes(AbsCls), 1, 3) \cup PartCases(LitTypes(AllCls), 1, 2)
-
-\* the three inputs on which the faithful model is known not to be a function of its input
-StrictInputs == {c \in OrderCases : NPaths(c) <= 5} \cup SchemaCases
 =============================================================================
